@@ -29,7 +29,7 @@ class E2:
 
     def _build_ir(self, d, extra_defs):
         incs = ['-I' + os.path.join(VERIF, 'models', 'immintrin')] + REAL_INCS + ['-I' + os.path.join(VERIF, 'harness'), '-I' + os.path.join(VERIF, 'ref')]
-        base = ['clang-14', '-std=gnu11', '-O0', '-Xclang', '-disable-O0-optnone', '-S', '-emit-llvm', '-w', '-fno-builtin', '-DVERIF_SYMX'] + REAL_DEFS + incs + self.defines + list(extra_defs)
+        base = ['clang-14', '-std=gnu11', '-O0', '-Xclang', '-disable-O0-optnone', '-S', '-emit-llvm', '-w', '-fno-builtin', '-DVERIF_SYMX', '-D_OPENMP=201511'] + REAL_DEFS + incs + self.defines + list(extra_defs)
         units = [os.path.join(VERIF, self.harness)] + [repo_path(s) for s in self.sources] + [os.path.join(VERIF, 'ref', r) for r in self.ref]
         lls = []
         def one(iu):
@@ -122,6 +122,7 @@ class E2:
                     mism = rep; break
         stats['validated'] = validated
         if mism:
+            save_replay(pid, self.name + '.validation-mismatch', {'property': pid, 'obligation': self.name, 'sample': smp, 'native': mism})
             return mk('inconclusive', 'translator validation FAILED: native run of a completed path disagrees with the engine: %s' % mism.get('output', '')[-500:], stats=stats, functions=functions)
         smp = res['samples'][0] if res['samples'] else {}
         return mk('pass', '', stats=stats, functions=functions,
